@@ -315,7 +315,9 @@ def show(v):
 
 class Analyzer:
     def __init__(self, prog, f, entry_state=None, call_summary=None, field_summary=None, global_tables=True,
-                 havoc_fields_on_call=True, load_hook=None):
+                 havoc_fields_on_call=True, load_hook=None, diffs=()):
+        # diffs: pairs (kx, ky) of variable keys whose difference x - y is tracked as a ghost variable
+        self.diffs = set(diffs)
         self.prog = prog
         self.f = f
         self.cf = cfgm.CFG(f)
@@ -328,6 +330,7 @@ class Analyzer:
         self.notes = []
         self._addr_taken = self._compute_addr_taken()
         self._facts_cache = {}
+        self._loop_cache = {}
         self.cur_block = None
         self._solve()
 
@@ -513,6 +516,9 @@ class Analyzer:
             if op in ('<', '<=', '>', '>=', '==', '!='):
                 return cmp_result(op, a, b)
             if op == '-':
+                dk = self._diffkey(e[2], e[3])
+                if dk is not None and dk in st:
+                    return meet(sub(a, b), st[dk]) or st[dk]
                 d = self._difference_fact(e[2], e[3])
                 if d is not None:
                     return meet(sub(a, b), mk(d, INF)) or sub(a, b)
@@ -561,6 +567,14 @@ class Analyzer:
         if k == 'va_arg':
             return TOP
         return TOP
+
+    def _diffkey(self, x, y):
+        if not self.diffs:
+            return None
+        kx, ky = sx.key(sx.strip(x)), sx.key(sx.strip(y))
+        if (kx, ky) in self.diffs:
+            return ('diff', kx, ky)
+        return None
 
     def _difference_fact(self, x, y):
         """lower bound of x - y from branch facts that dominate the current
@@ -697,6 +711,8 @@ class Analyzer:
             if sx.kind(x0) == 'assign':
                 x0 = sx.strip_paren(x0[1])
             vk = self.varkey(x0)
+            if vk is None and sx.kind(x0) == 'bin' and x0[1] == '-':
+                vk = self._diffkey(x0[2], x0[3])
             if vk is None:
                 continue
             cur = self.ev(x0, out)
@@ -740,16 +756,66 @@ class Analyzer:
             out[k] = join(a[k], b[k])
         return out
 
-    def widen_states(self, old, new):
+    def _loop_assigned(self, head):
+        """variable keys that may be assigned inside the loop headed by `head`
+        (blocks on a cycle through head); None = unknown (widen everything)"""
+        c = self._loop_cache.get(head)
+        if c is not None:
+            return c
+        cf = self.cf
+        # natural loop of the back edges into head
+        body = {head}
+        work = [p_ for p_ in cf.pred[head] if cf.dominates(head, p_)]
+        if not work:
+            fwd = cf.reachable_from(head)
+            body = {b for b in fwd if head in cf.reachable_from(b)} | {head}
+        while work:
+            n_ = work.pop()
+            if n_ in body:
+                continue
+            body.add(n_)
+            work.extend(cf.pred[n_])
+        keys = set()
+        for b in body:
+            for s in self.f.block_exprs(cf.blocks[b]):
+                for n in sx.walk(s):
+                    lv = None
+                    if n[0] == 'assign':
+                        lv = n[1]
+                    elif n[0] == 'cassign':
+                        lv = n[2]
+                    elif n[0] == 'inc':
+                        lv = n[3]
+                    elif n[0] == 'decls':
+                        for d in n[1]:
+                            if d[0] == 'decl':
+                                keys.add(('local', d[2]))
+                    elif n[0] == 'addr':
+                        lv = n[1]
+                    elif n[0] == 'call':
+                        keys.add('CALL')
+                    if lv is not None:
+                        vk = self.varkey(lv) or self.cellkey(lv) or self._pathkey(lv)
+                        keys.add(vk if vk is not None else 'UNKNOWN')
+        self._loop_cache[head] = keys
+        return keys
+
+    def widen_states(self, old, new, head=None):
         if old is None:
             return new
         if new is None:
             return old
+        assigned = self._loop_assigned(head) if head is not None else None
         out = {}
         for k in set(old) & set(new):
             o, n = old[k], new[k]
             if n == o:
                 out[k] = o
+                continue
+            if assigned is not None and k[0] in ('local', 'param') and k not in assigned and k not in self._addr_taken:
+                # not assigned inside the loop: its value at the head can only change because the
+                # state entering the loop changed - plain join keeps the entry bound
+                out[k] = n
                 continue
             j = join(o, n)
             l = lo(j) if lo(j) >= lo(o) else self._wlow(k, lo(j))
@@ -826,17 +892,39 @@ class Analyzer:
         if k == 'assign':
             st = self._effects(e[2], st)
             st = self._effects_lvalue(e[1], st)
+            if st is None:
+                return None
             v = self.ev(e[2], st)
-            return self._store(e[1], v, st)
+            self._pending_delta = None
+            r = sx.strip(e[2])
+            if self.diffs and sx.kind(r) == 'bin' and r[1] in ('+', '-') and sx.key(sx.strip(r[2])) == sx.key(sx.strip_paren(e[1])):
+                d = self.ev(r[3], st)
+                self._pending_delta = d if r[1] == '+' else neg(d)
+            out = self._store(e[1], v, st)
+            self._pending_delta = None
+            return out
         if k == 'cassign':
             st = self._effects(e[3], st)
             st = self._effects_lvalue(e[2], st)
+            if st is None:
+                return None
             v = self._binop(e[1], self.ev(e[2], st), self.ev(e[3], st))
-            return self._store(e[2], v, st)
+            self._pending_delta = None
+            if self.diffs and e[1] in ('+', '-'):
+                d = self.ev(e[3], st)
+                self._pending_delta = d if e[1] == '+' else neg(d)
+            out = self._store(e[2], v, st)
+            self._pending_delta = None
+            return out
         if k == 'inc':
             st = self._effects_lvalue(e[3], st)
+            if st is None:
+                return None
             v = add(self.ev(e[3], st), const(1 if e[1] == '++' else -1))
-            return self._store(e[3], v, st)
+            self._pending_delta = const(1 if e[1] == '++' else -1)
+            out = self._store(e[3], v, st)
+            self._pending_delta = None
+            return out
         if k == 'bin' and e[1] in ('&&', '||'):
             st1 = self._effects(e[2], st)
             st2 = self._effects(e[3], self.refine(st1, e[2], e[1] == '&&'))
@@ -869,6 +957,19 @@ class Analyzer:
         lv = sx.strip_paren(lv)
         vk = self.varkey(lv)
         st = dict(st)
+        if vk is not None and self.diffs:
+            oldv = st.get(vk)
+            if oldv is None:
+                oldv = self._key_range(vk) if vk[0] in ('local', 'param') else TOP
+            delta = getattr(self, '_pending_delta', None)
+            for (kx, ky) in self.diffs:
+                dk = ('diff', kx, ky)
+                if vk == kx or vk == ky:
+                    cur = st.get(dk)
+                    if delta is not None and cur is not None:
+                        st[dk] = add(cur, delta) if vk == kx else sub(cur, delta)
+                    elif dk in st:
+                        del st[dk]
         if vk is not None:
             if vk[0] == 'local':
                 v = cast_to(v, self._local_range(vk[1]))
@@ -994,7 +1095,7 @@ class Analyzer:
                     if s in back_targets:
                         visits[s] = visits.get(s, 0) + 1
                         if visits[s] > 3:
-                            new = self.widen_states(old, new)
+                            new = self.widen_states(old, new, s)
                 if old is None or new != old:
                     IN[s] = new
                     if s not in inwork:
@@ -1017,12 +1118,12 @@ class Analyzer:
                 old = IN.get(b)
                 if old is not None:
                     nn = {}
-                    for k in set(old) | set(new):
-                        if k in new and k in old:
+                    for k in new:
+                        if k in old:
                             m = meet(old[k], new[k])
                             nn[k] = m if m else new[k]
-                        elif k in new and k not in old:
-                            pass
+                        else:
+                            nn[k] = new[k]
                     new = nn
                 IN[b] = new
                 # re-run the block to refresh edge outputs
